@@ -61,8 +61,10 @@ statement outside the decidable class of that defect. `known (open)` are the cla
 every check and must pass). All theorems are closed under the global context (`Print Assumptions`, re-checked on
 every run; `coqchk` in the thorough tier). The wall times are from the last run in this sandbox (on the quiet machine
 all 39 quick checks take about 18 minutes in sequence; a fresh copy ran setup plus all of them in about 26 minutes).
-Every thorough tier was run once on the final models and exits 0 on the unchanged tree (C35's thorough tier, 168
-feature-combination builds, needs more than 45 minutes on a loaded machine).
+Every thorough tier was run once on the final models and exits 0 on the unchanged tree (C35's thorough tier — 160 feature-combination
+builds and 1567 `cargo tree` comparisons — takes 22 minutes on the quiet machine, more than 45 on a loaded one).
+`./check <id> --replay <file>` re-runs exactly the cases of a replay file: it reproduces the violation on the patched
+tree and exits 0 on the restored one (tried for C10).
 
 """ + stat
 open(p, "w").write(s)
